@@ -13,9 +13,9 @@ package main
 
 import (
 	"fmt"
-	"math"
 	"net/netip"
 	"os"
+	"runtime/pprof"
 	"sort"
 	"strings"
 	"time"
@@ -401,7 +401,9 @@ func cmDraw(c *hx.Ctx, r cmRow, sw cmSwRow, variant int) *cmSit {
 	rej, reh := uint64(nebula.VerifCMRejectAfterMessages), uint64(nebula.VerifCMRehandshakeAfterMessages)
 	switch {
 	case r.Exh:
-		s.Counter = []uint64{rej, rej + 1, rej + (1 << 39), math.MaxUint64}[(variant+c.Intn(4))%4]
+		// the counter is pinned to RejectAfterMessages by NextMessageCounter; concurrent senders can overshoot by a
+		// few, never by the 2^40 headroom (so no value that wraps on the next increment)
+		s.Counter = []uint64{rej, rej + 1, rej + 1000, rej + (1 << 39)}[(variant+c.Intn(4))%4]
 	case sw.Rk:
 		// rej-1 is left out: the counter is not exhausted, yet the next send is refused (NextMessageCounter)
 		s.Counter = []uint64{reh, reh + 5, rej - 2}[(variant+c.Intn(3))%3]
@@ -431,7 +433,7 @@ func cmDraw(c *hx.Ctx, r cmRow, sw cmSwRow, variant int) *cmSit {
 	} else {
 		switch (variant + c.Intn(4)) % 4 {
 		case 0:
-			s.LastUsedAgo = 0
+			s.LastUsedAgo = 1 // (not 0: "lastUsed was set to now" must stay observable)
 		case 1:
 			s.LastUsedAgo = s.Timeout - 1
 		case 2:
@@ -500,6 +502,27 @@ func cmEval(m *nebula.VerifCMMaterial, s *cmSit) (cmRes, bool, error) {
 	x.Clear = !a.InAfter && !a.OutAfter
 	x.PrimaryAf = b.PrimaryAfter
 	return x, swap, nil
+}
+
+// cmEvalUnknown: a check for a tunnel the hostmap does not hold. Returns the decision and whether nothing at
+// all happened.
+func cmEvalUnknown(m *nebula.VerifCMMaterial, s *cmSit) (int, bool, error) {
+	wa, ha, now := cmBuild(m, s, false)
+	wb, hb, _ := cmBuild(m, s, true)
+	pa, pb := wa.Pre(ha), wb.Pre(hb)
+	a := wa.Decide(ha, now)
+	b := wb.Check(hb, now)
+	if a.Panic != "" || b.Panic != "" {
+		return 0, false, fmt.Errorf("panic: makeTrafficDecision %q doTrafficCheck %q", a.Panic, b.Panic)
+	}
+	if _, ok := cmDecNames[a.Decision]; !ok {
+		return 0, false, fmt.Errorf("unknown decision value %d", a.Decision)
+	}
+	inert := func(p nebula.VerifCMPre, o nebula.VerifCMObs) bool {
+		return !p.Known && !o.KnownAfter && o.PendingAfter == p.PendingDeletion && o.InAfter == p.In && o.OutAfter == p.Out && !o.Touched &&
+			o.Timer == 0 && o.PunchN == 0 && o.TestPkts+o.ClosePkts+o.OtherPkts == 0 && o.Handshake == 0 && !o.PrimaryAfter
+	}
+	return a.Decision, a.RetNil && inert(pa, a) && inert(pb, b), nil
 }
 
 func cmRealRow(r cmRow, w *nebula.VerifCMWorld, h int) error {
@@ -595,7 +618,7 @@ func cmAuxWorld(m *nebula.VerifCMMaterial, a cmAux) (*nebula.VerifCMWorld, int) 
 func cmCounterFor(c *hx.Ctx, rk bool, variant int) uint64 {
 	rej, reh := uint64(nebula.VerifCMRejectAfterMessages), uint64(nebula.VerifCMRehandshakeAfterMessages)
 	if rk {
-		return []uint64{reh, reh + 1, rej - 2, rej, math.MaxUint64}[(variant+c.Intn(5))%5]
+		return []uint64{reh, reh + 1, rej - 2, rej, rej + (1 << 39)}[(variant+c.Intn(5))%5]
 	}
 	return []uint64{0, 1, reh - 1, reh / 2}[(variant+c.Intn(4))%4]
 }
@@ -733,6 +756,11 @@ func cmFail(format string, args ...any) {
 }
 
 func genConnMgr(c *hx.Ctx) {
+	if pf := os.Getenv("CM_PROF"); pf != "" {
+		f, _ := os.Create(pf)
+		pprof.StartCPUProfile(f)
+		defer pprof.StopCPUProfile()
+	}
 	k := 3
 	if c.Tier == "thorough" {
 		k = 8
@@ -755,7 +783,7 @@ func genConnMgr(c *hx.Ctx) {
 
 	// the decision table
 	var entries, infeasible []string
-	var unknown *cmRes
+	unknownDec, unknownInert := -1, true
 	for _, r := range cmAllRows() {
 		var first *cmRes
 		var firstSit *cmSit
@@ -779,15 +807,15 @@ func genConnMgr(c *hx.Ctx) {
 			// the same situation with the tunnel unknown to the hostmap
 			su := *s
 			su.Known = false
-			xu, _, err := cmEval(m, &su)
+			dec, inert, err := cmEvalUnknown(m, &su)
 			if err != nil {
 				cmFail("row %s (tunnel not in the hostmap): %v", r.lit(), err)
 			}
-			if unknown == nil {
-				unknown = &xu
-			} else if *unknown != xu {
-				cmFail("tunnels unknown to the hostmap are treated differently: %s / %s <- %v", unknown.lit(), xu.lit(), su.json())
+			if unknownDec >= 0 && unknownDec != dec {
+				cmFail("tunnels unknown to the hostmap are treated differently: %s / %s <- %v", cmDecNames[unknownDec], cmDecNames[dec], su.json())
 			}
+			unknownDec = dec
+			unknownInert = unknownInert && inert
 		}
 		if first == nil {
 			infeasible = append(infeasible, r.lit())
@@ -795,7 +823,8 @@ func genConnMgr(c *hx.Ctx) {
 		}
 		entries = append(entries, "("+r.lit()+", "+first.lit()+")")
 	}
-	fmt.Fprintf(&sb, "(* a check for a local index the hostmap does not hold *)\nDefinition tab_unknown : res := %s.\n\n", unknown.lit())
+	fmt.Fprintf(&sb, "(* a check for a local index the hostmap does not hold: the decision, and whether every such check (one per\n   situation above) left the tunnel object, the hostmap, the timer and the sockets untouched *)\n"+
+		"Definition tab_unknown_decision : decision := %s.\nDefinition tab_unknown_inert : bool := %v.\n\n", cmDecNames[unknownDec], unknownInert)
 	fmt.Fprintf(&sb, "(* %d rows *)\nDefinition tab_decide : list (row * res) := [\n %s].\n\n", len(entries), strings.Join(entries, ";\n "))
 	fmt.Fprintf(&sb, "(* rows for which no situation exists: an exhausted counter is past the rekey threshold, which rules out swap eligibility *)\n"+
 		"Definition tab_infeasible : list row := [\n %s].\n\n", strings.Join(infeasible, ";\n "))
